@@ -294,6 +294,44 @@ func r012(c *Ctx) {
 // newly allocated visited set.
 func freshVisitedFuncs(p *core.Program) map[*ssa.Function]bool {
 	out := map[*ssa.Function]bool{}
+	// installers: a straight-line function that returns context.WithValue(ctx, key, <its parameter k>)
+	installers := map[*ssa.Function]int{}
+	for _, fn := range p.KetoFuncs("internal/x/graph") {
+		if fn.Parent() != nil || len(fn.Blocks) != 1 {
+			continue
+		}
+		for _, ins := range fn.Blocks[0].Instrs {
+			ret, ok := ins.(*ssa.Return)
+			if !ok || len(ret.Results) != 1 {
+				continue
+			}
+			call, ok := ret.Results[0].(*ssa.Call)
+			if !ok {
+				continue
+			}
+			obj := core.CalleeObj(call.Common())
+			if obj == nil || obj.Name() != "WithValue" || obj.Pkg() == nil || obj.Pkg().Path() != "context" {
+				continue
+			}
+			if par, ok := core.Unwrap(call.Common().Args[2]).(*ssa.Parameter); ok {
+				for k, q := range fn.Params {
+					if q == par {
+						installers[fn] = k
+					}
+				}
+			}
+		}
+	}
+	isFreshValue := func(val ssa.Value) bool {
+		val = core.Unwrap(val)
+		if mk, ok := val.(*ssa.Call); ok {
+			if g := mk.Common().StaticCallee(); g != nil && allocatesFresh(g) {
+				return true
+			}
+		}
+		_, isAlloc := val.(*ssa.Alloc)
+		return isAlloc
+	}
 	// a straight-line function whose first result is context.WithValue(ctx, key, <new set>) - or what
 	// another such function returns (the installation extracted into a helper)
 	for changed := true; changed; {
@@ -323,6 +361,13 @@ func freshVisitedFuncs(p *core.Program) map[*ssa.Function]bool {
 					out[fn] = true
 					changed = true
 					continue
+				}
+				if sc := call.Common().StaticCallee(); sc != nil {
+					if k, isInst := installers[sc]; isInst && k < len(call.Common().Args) && isFreshValue(call.Common().Args[k]) {
+						out[fn] = true
+						changed = true
+						continue
+					}
 				}
 				obj := core.CalleeObj(call.Common())
 				if obj == nil || obj.Name() != "WithValue" || obj.Pkg() == nil || obj.Pkg().Path() != "context" {
@@ -879,6 +924,70 @@ func r016(c *Ctx) {
 					}
 				}
 			})
+			// the scan written with a library helper: if slices.ContainsFunc(results, func(r) bool { return r.Found }) { member; return }
+			if !foundTested {
+				core.Instrs(fn, func(b2 *ssa.BasicBlock, _ int, i2 ssa.Instruction) {
+					ifi, ok := i2.(*ssa.If)
+					if !ok {
+						return
+					}
+					call, ok := ifi.Cond.(*ssa.Call)
+					if !ok {
+						return
+					}
+					sc := call.Common().StaticCallee()
+					if sc == nil || !strings.HasPrefix(sc.Name(), "ContainsFunc") || core.FuncPkg(sc) == nil || core.FuncPkg(sc).Path() != "slices" || len(call.Common().Args) != 2 {
+						return
+					}
+					if sliceRoot(call.Common().Args[0]) != root {
+						return
+					}
+					var pred *ssa.Function
+					switch f := call.Common().Args[1].(type) {
+					case *ssa.MakeClosure:
+						pred, _ = f.Fn.(*ssa.Function)
+					case *ssa.Function:
+						pred = f
+					}
+					if pred == nil || len(pred.Params) != 1 || len(pred.Blocks) != 1 {
+						return
+					}
+					// the predicate is exactly "the element's Found flag"
+					isFound := false
+					for _, pi := range pred.Blocks[0].Instrs {
+						if ret, ok := pi.(*ssa.Return); ok && len(ret.Results) == 1 {
+							if u, ok := ret.Results[0].(*ssa.UnOp); ok && u.Op == token.MUL {
+								if fa, ok := u.X.(*ssa.FieldAddr); ok && fieldVarOf(fa) != nil && fieldVarOf(fa).Name() == "Found" && fa.X == ssa.Value(pred.Params[0]) {
+									isFound = true
+								}
+							}
+						}
+					}
+					if !isFound {
+						return
+					}
+					tb := b2.Succs[0]
+					member, leaves := false, false
+					for _, i3 := range tb.Instrs {
+						if c3, ok := i3.(ssa.CallInstruction); ok {
+							if c3.Common().IsInvoke() && c3.Common().Method.Name() == "SetIsMember" {
+								member = true
+							}
+							for _, a := range c3.Common().Args {
+								if f, ok := a.(*ssa.Function); ok && f.Name() == "IsMemberFunc" {
+									member = true
+								}
+							}
+						}
+						if _, ok := i3.(*ssa.Return); ok {
+							leaves = true
+						}
+					}
+					if member && leaves && core.EdgeDominates(b2, 1, ci.Block()) {
+						foundTested = true
+					}
+				})
+			}
 			r.Check(foundTested, "R01.6", name, "skipDirect=true", p.Pos(ci.Pos()),
 				"the tuple comes from a traversal result and a preceding loop over the same results answers IsMember whenever Found is set",
 				"the direct lookup is skipped but no preceding loop over the same traversal results answers IsMember on Found: direct memberships are dropped")
